@@ -181,6 +181,23 @@ theorem operators_complete :
        ("SubAssign", true, true), ("SubAssign", true, false)] := by
   decide
 
+/-- the header-level decision is the one the operation takes: whenever `ewDecision` reports an
+error, `elementwise_operation` returns exactly that error (and nothing is computed) -/
+theorem elementwise_decision_err (esOut : Nat) (a : Matrix α) (b : Matrix β) (op : α → β → γ) (e : Error)
+    (h : ewDecision esOut a.hdr b.hdr a.data.size = .ok (.error e)) :
+    a.elementwiseOperation esOut b op = .ok (.error e) := by
+  unfold ewDecision at h
+  unfold Matrix.elementwiseOperation
+  cases hc : Gen.Matrix.is_elementwise_operation_conformable a.hdr b.hdr with
+  | error f => simp [hc, bind, Except.bind] at h
+  | ok ok =>
+    simp only [hc, bind, Except.bind] at h ⊢
+    cases ok with
+    | false => simpa [pure, Except.pure] using h
+    | true =>
+      simp only [Bool.not_true, Bool.false_eq_true, ↓reduceIte] at h ⊢
+      rw [h]
+      rfl
 /-- the conformability guards (re-read from src/arithmetic.rs on every run) are exactly "the
 predicate, else the documented error": `ShapeNotConformable` for both operand-shape guards (the
 decision itself is the regenerated `Gen.Matrix.is_*_conformable`, see `conformable_iff` and
